@@ -91,7 +91,10 @@ def _loops(run, F, PV, C):
     # is the cycle guard just as well as a raise inside the loop)
     for lf in Walker(A, parse, C, atom, stop_at_for=True).walk(head, stops={head}):
         kind = "next" if lf.kind == "stop" and lf.node is head else ("leave" if lf.kind == "stop" else lf.kind)
-        pushes = [v for k, st, v in lf.effects if k == "expr" and isinstance(v, ast.Call) and call_name(v) == "append" and isinstance(v.func.value, ast.Name)]
+        # the record of visited names: a list grown by append, or a set grown by add
+        pushes = [v for k, st, v in lf.effects if k == "expr" and isinstance(v, ast.Call) and call_name(v) in ("append", "add") and isinstance(v.func.value, ast.Name)]
+        for p_ in pushes:
+            state.setdefault("PUSH", p_.func.attr)
         for v in completions({k: b for k, b in lf.pc.items() if k in atoms}, atoms):
             n_cases += 1
             desc = ", ".join(f"{a}={'T' if v[a] else 'F'}" for a in atoms)
@@ -116,7 +119,7 @@ def _loops(run, F, PV, C):
             if kind == "next" and want == ("next",):
                 VIS = state.get("VIS")
                 okp = len(pushes) == 1 and VIS is not None and pushes[0].func.value.id == VIS and len(pushes[0].args) == 1 \
-                    and norm(pushes[0].args[0]) == f"{X}.name"
+                    and norm(pushes[0].args[0]) == f"{X}.name" and pushes[0].func.attr == state.get("PUSH")
                 run.check("R1", okp, "each visited element is recorded before stepping", key="HSMCertificate._parse|visited-append", where=parse.loc(w),
                           message=f"the parse walk steps having recorded {[norm(p) for p in pushes]} (expected `{VIS}.append({X}.name)` of the element being left): the "
                                   "cycle guard can never fire for that element")
@@ -124,9 +127,9 @@ def _loops(run, F, PV, C):
                 run.check("R1", step is not None and norm(step) == f"self._elements[{X}.signed_by]", "walk step follows signed_by", key="HSMCertificate._parse|step",
                           where=parse.loc(w), message=f"the parse walk steps to `{norm(step) if step is not None else X}`, not to `self._elements[{X}.signed_by]`")
                 muts = [norm(vv)[:40] for k, st, vv in lf.effects if k == "expr" and isinstance(vv, ast.Call) and isinstance(vv.func, ast.Attribute)
-                        and isinstance(vv.func.value, ast.Name) and vv.func.value.id == VIS and vv.func.attr != "append"]
+                        and isinstance(vv.func.value, ast.Name) and vv.func.value.id == VIS and vv.func.attr != state.get("PUSH", "append")]
                 run.check("R1", not muts and VIS not in lf.env and VIS not in lf.bind, "visited only grows", key="HSMCertificate._parse|visited-mutations",
-                          where=parse.loc(w), message=f"`{VIS}` is modified by something other than append ({muts})")
+                          where=parse.loc(w), message=f"`{VIS}` is modified by something other than {state.get('PUSH', 'append')} ({muts})")
     run.floor("R1", "parse-walk decision cases", n_cases, 8)
     VIS = state.get("VIS")
     if VIS is None:
@@ -151,7 +154,7 @@ def _loops(run, F, PV, C):
             continue
         run.check("R1", lf.pc.get("INEL") is True, "target checked before indexing", key="HSMCertificate._parse|target-guard", where=parse.loc(tloop),
                   message="a target that is not among the elements is indexed without a check")
-        for nm, want in ((VIS, "[]"), (X, f"self._elements[{TGT}]")):
+        for nm, want in ((VIS, "set()" if state.get("PUSH") == "add" else "[]"), (X, f"self._elements[{TGT}]")):
             got = lf.env.get(nm, lf.bind.get(nm))
             run.check("R1", got is not None and norm(got) == want, f"`{nm} = {want}` for every target",
                       key=f"HSMCertificate._parse|{'visited' if nm == VIS else 'current'}-init", where=parse.loc(),
@@ -349,7 +352,8 @@ def _roundtrip(run, PV):
         for key, vexpr in sorted(emitted.items()):
             npairs += 1
             if key == "type":
-                run.check("R3", isinstance(vexpr, ast.Constant) and vexpr.value == tname.get(cq),
+                okt_, tv_ = try_fold(P, vexpr, td, ci)       # a literal, or a constant of the class (self.ELEMENT_TYPE)
+                run.check("R3", okt_ and isinstance(tv_, str) and tv_ == tname.get(cq),
                           f"{ci.name}.to_dict type == '{tname.get(cq)}'", key=f"{ci.name}.to_dict|type", where=td.loc(),
                           message=f"{ci.name}.to_dict writes type `{norm(vexpr)}`, loader maps `{tname.get(cq)}` to this class")
                 continue
